@@ -34,7 +34,8 @@ def _np_array(t, salt):
 
     shape = tuple(t["shape"])
     n = int(np.prod(shape)) if shape else 1
-    seed = int(hashlib.sha256((t["name"] + "|" + str(salt)).encode()).hexdigest()[:8], 16)
+    # payload_of: the tensor carries the payload of another tensor (tied weights: equal dtype, shape and bytes)
+    seed = int(hashlib.sha256((t.get("payload_of", t["name"]) + "|" + str(salt)).encode()).hexdigest()[:8], 16)
     r = np.random.default_rng(seed)
     dt = t["dtype"]
     if dt in DT_NP:
